@@ -277,6 +277,23 @@ example : readAttr (xmlcharrefreplace latin1Codec (quotedAttributeValue (substit
     = ofS "say \"it's\" &" ++ [0x2603] := by decide
 example : CharrefSafeAttr latin1Codec (ofS "say \"it's\" &" ++ [0x2603]) = true := by decide
 
+/-- The default ("minimal") formatter's entity substitution IS `EntitySubstitution.substitute_xml` (generated from the live
+    registry): every `&` of the tree is escaped, which is what `lossless_text` / `lossless_attr` rest on. -/
+theorem minimal_formatter_is_substitute_xml :
+    minimalFormatterIsSubstituteXml = true ∧ minimalFormatterSubstitution = ofS "substitute_xml" := by decide
+
+/-- Why every `&` must be escaped: text that merely SPELLS a reference — `&#233;`, `&#xE9;` is left literal by this reader
+    model, `&amp;`, `&lt;` — would, written as it stands, be read as the reference (it cannot be told from real
+    `xmlcharrefreplace` output); escaped by `substituteXml` it comes back verbatim, next to characters the target cannot
+    encode, in text and in attribute values. -/
+theorem lookalike_references :
+    readText (fun _ => none) (xmlcharrefreplace asciiCodec (ofS "write &#233; to get " ++ [0xE9])) = ofS "write " ++ [0xE9] ++ ofS " to get " ++ [0xE9]
+    ∧ readText (fun _ => none) (xmlcharrefreplace asciiCodec (substituteXml (ofS "write &#233; to get " ++ [0xE9])))
+        = ofS "write &#233; to get " ++ [0xE9]
+    ∧ readText (fun _ => none) (ofS "&amp;lt;") = ofS "&lt;"
+    ∧ readAttr (xmlcharrefreplace asciiCodec (quotedAttributeValue (substituteXml (ofS "x=a&b;y=&amp;" ++ [0x2603] ++ ofS "&#9731;\"'"))))
+        = ofS "x=a&b;y=&amp;" ++ [0x2603] ++ ofS "&#9731;\"'" := by decide
+
 /-- Without the hypothesis the statement fails (known finding `C08-c1-controls-via-charref`): U+0080 written for a target
     that cannot carry it becomes `&#128;`, which bs4's `handle_charref` (and `html.unescape`) read as windows-1252 `€`. -/
 theorem lossless_text_needs_safe :
